@@ -31,7 +31,6 @@
 package version // import "pault.ag/go/debian/version"
 
 import (
-	"encoding/json"
 	"fmt"
 	"strconv"
 	"strings"
@@ -68,7 +67,7 @@ func (v *Version) IsNative() bool {
 }
 
 func (version *Version) MarshalText() ([]byte, error) {
-	return json.Marshal(version.String())
+	return []byte(version.String()), nil
 }
 
 func (version *Version) UnmarshalText(text []byte) error {
